@@ -644,6 +644,12 @@ func (e *Enc) encConvert(fr *Frame, st *State, in *ssa.Convert) *Val {
 				e.heapSet(st, key, sort, "(store "+h+" "+r+" ("+f+" "+x.L[0].T+"))")
 				ln := "(strlen " + x.L[0].T + ")"
 				e.assert("(<= 0 " + ln + ")")
+				// []byte(s) has the abstract content strBytes(s) (when the prelude declares that ghost function)
+				if g, ok := e.DB.Ghosts["strBytes"]; ok && len(g.Params) == 1 && g.Body == nil {
+					if n, _, err := e.ghostSymbol(g); err == nil {
+						e.assert(eq(e.bseqTerm("("+f+" "+x.L[0].T+")", "0", ln), "("+n+" "+x.L[0].T+")"))
+					}
+				}
 				return &Val{T: in.Type(), L: []Sc{{r, "Int"}, {"0", "Int"}, {ln, "Int"}, {ln, "Int"}}}
 			}
 		}
@@ -657,6 +663,12 @@ func (e *Enc) encConvert(fr *Frame, st *State, in *ssa.Convert) *Val {
 				h := e.heapGet(st, key, sort)
 				t := "(" + f + " (select " + h + " " + x.L[0].T + ") " + x.L[1].T + " " + x.L[2].T + ")"
 				e.assert("(= (strlen " + t + ") " + x.L[2].T + ")")
+				// string(b) is a function of the abstract content of b (when the prelude declares ghost func strOfBytes)
+				if g, ok := e.DB.Ghosts["strOfBytes"]; ok && len(g.Params) == 1 && g.Body == nil {
+					if n, _, err := e.ghostSymbol(g); err == nil {
+						e.assert(eq(t, "("+n+" "+e.bseqTerm("(select "+h+" "+x.L[0].T+")", x.L[1].T, x.L[2].T)+")"))
+					}
+				}
 				return &Val{T: in.Type(), L: []Sc{{t, "Str"}}}
 			}
 		}
